@@ -152,6 +152,15 @@ Theorem C08_reject_classes_keep : forall c s f, reject_class s f ->
 Proof. exact reject_classes_keep. Qed.
 Print Assumptions C08_reject_classes_keep.
 
+(** Select.req / Deselect.req / Linktest.req: exactly one frame back, the matching response type,
+    on the request's system bytes, the link stays up, no transaction or counter is touched. *)
+Theorem C08_requests_answered : forall c s f st, ctrl_frame f st -> st = 1 \/ st = 3 \/ st = 5 ->
+  exists s' sid status,
+    respond c s f = (s', [Send (ctrl sid 0 status (st + 1) (f_sys f))], Keep) /\
+    opens s' = opens s /\ ctr s' = ctr s.
+Proof. exact requests_answered. Qed.
+Print Assumptions C08_requests_answered.
+
 (** Every frame sent back echoes the system bytes of the frame it answers (S9F1 aside, a new
     primary with fresh system bytes), and is made of bytes. *)
 Theorem C08_echo_sysbytes : forall c s f s' o e, respond c s f = (s', o, e) -> Forall (echoes s' f) o.
